@@ -31,9 +31,9 @@ use plonky2::gates::lookup::LookupGate;
 use plonky2::gates::lookup_table::LookupTableGate;
 use plonky2::hash::hash_types::HashOut;
 use plonky2::iop::challenger::Challenger;
-use plonky2::iop::generator::generate_partial_witness;
+use plonky2::iop::generator::{generate_partial_witness, GeneratedValues};
 use plonky2::iop::target::Target;
-use plonky2::iop::witness::{PartialWitness, WitnessWrite};
+use plonky2::iop::witness::{PartialWitness, PartitionWitness, WitnessWrite};
 use plonky2::plonk::circuit_builder::CircuitBuilder;
 use plonky2::plonk::circuit_data::{CircuitData, CommonCircuitData, ProverOnlyCircuitData};
 use plonky2::plonk::config::{GenericConfig, GenericHashOut, Hasher, KeccakGoldilocksConfig, PoseidonGoldilocksConfig};
@@ -247,7 +247,7 @@ fn ext_prove<C: GenericConfig<D, F = F>>(
     let lde_size = points.len();
     let pih_out = HashOut::<F>::from_vec(GenericHashOut::<F>::to_vec(&pih));
     let mut qvals: Vec<Vec<F>> = vec![Vec::with_capacity(lde_size); nch];
-    let ext = |xs: &[F]| -> Vec<FE> { xs.iter().map(|x| FE::from_basefield(*x)).collect() };
+    let ext = |xs: &[F]| -> Vec<FE> { xs.iter().map(|x| <FE as FieldExtension<D>>::from_basefield(*x)).collect() };
     for i in 0..lde_size {
         let x = F::coset_shift() * points[i];
         let i_next = (i + next_step) % lde_size;
@@ -262,7 +262,7 @@ fn ext_prove<C: GenericConfig<D, F = F>>(
         let vars = EvaluationVars { local_constants: &lc, local_wires: &lw, public_inputs_hash: &pih_out };
         let v = verif_exports::eval_vanishing_poly::<F, D>(
             common,
-            FE::from_basefield(x),
+            <FE as FieldExtension<D>>::from_basefield(x),
             vars,
             &ext(&loc[common.zs_range()]),
             &ext(&nxt[common.zs_range()]),
@@ -277,7 +277,7 @@ fn ext_prove<C: GenericConfig<D, F = F>>(
         );
         let zh_inv = (x.exp_power_of_2(degree_bits) - F::ONE).inverse();
         for c in 0..nch {
-            let comps = v[c].to_basefield_array();
+            let comps: [F; D] = <FE as FieldExtension<D>>::to_basefield_array(&v[c]);
             anyhow::ensure!(comps[1] == F::ZERO, "vanishing polynomial left the base field");
             qvals[c].push(comps[0] * zh_inv);
         }
@@ -334,7 +334,10 @@ fn ext_prove<C: GenericConfig<D, F = F>>(
 
 struct Corruption {
     kind: String,
+    /// cell edits of the honest assignment ...
     edits: Vec<(usize, F)>,
+    /// ... or a complete assignment produced by forged witness generation
+    assign: Option<Assignment<F>>,
     desc: Value,
 }
 
@@ -549,15 +552,72 @@ fn run_one<C: GenericConfig<D, F = F>>(s: &Scenario, selftest: bool, max_cor: us
     }
     // ---- corruptions
     let mut r = rand_chacha::ChaCha8Rng::seed_from_u64(seed() ^ s.id.bytes().fold(7u64, |a, b| a.wrapping_mul(131).wrapping_add(b as u64)));
-    let class_of = |t: Target| -> Vec<usize> {
-        let rp = rep[a0.idx(t)];
-        (0..rep.len()).filter(|&x| rep[x] == rp).collect()
+    // Forged witness generation: lookup k of table t is pinned to (new_in, new_out), its LookupGenerator
+    // is not run, every other generator is (so whatever depends on the looked-up output -- the
+    // public-input hash rows -- is consistent with the forged value); padding slots and multiplicity
+    // wires are taken from the honest assignment.  Only the lookup is violated.
+    let forge = |t: usize, k: usize, new_in: u64, new_out: u64| -> Option<Assignment<F>> {
+        let mut w = PartitionWitness::new(nw, degree, rep);
+        for t2 in 0..nt {
+            for (k2, e) in s.tables[t2].lookups.iter().enumerate() {
+                let v = if (t2, k2) == (t, k) { fc(new_in) } else { F::from_canonical_u16(s.tables[t2].pairs[*e].0) };
+                w.set_target(built.ins[t2][k2], v).ok()?;
+            }
+        }
+        w.set_target(built.outs[t][k], fc(new_out)).ok()?;
+        let (row, slot) = lu_cell(t, k);
+        let pinned = Target::wire(row, LookupGate::wire_ith_looking_inp(slot));
+        let gens = &prover.generators;
+        let mut expired: Vec<bool> = gens.iter().map(|g| g.0.id() == "LookupGenerator" && g.0.watch_list() == vec![pinned]).collect();
+        if expired.iter().filter(|x| **x).count() != 1 {
+            return None;
+        }
+        let mut buffer = GeneratedValues::empty();
+        loop {
+            let mut progress = false;
+            for gi in 0..gens.len() {
+                if expired[gi] {
+                    continue;
+                }
+                if guarded(|| gens[gi].0.run(&w, &mut buffer)).ok()? {
+                    expired[gi] = true;
+                    progress = true;
+                }
+                for (tg, v) in buffer.target_values.drain(..) {
+                    w.set_target(tg, v).ok()?;
+                }
+            }
+            if !progress {
+                break;
+            }
+        }
+        if !expired.iter().all(|x| *x) {
+            return None;
+        }
+        let mut a = Assignment::from_partition(&w);
+        for t2 in 0..nt {
+            let lw = &prover.lookup_rows[t2];
+            let pad = (l_slots - s.tables[t2].lookups.len() % l_slots) % l_slots;
+            for slot in l_slots - pad..l_slots {
+                for col in [2 * slot, 2 * slot + 1] {
+                    let x = (lw.last_lut_gate - 1) * nw + col;
+                    a.values[x] = a0.values[x];
+                }
+            }
+            for row in lw.last_lut_gate..lw.first_lut_gate + 1 {
+                for slot in 0..s_slots {
+                    let x = row * nw + 3 * slot + 2;
+                    a.values[x] = a0.values[x];
+                }
+            }
+        }
+        Some(a)
     };
     let in_table = |t: usize, i: u64, o: u64| s.tables[t].pairs.iter().any(|p| p.0 as u64 == i && p.1 as u64 == o);
     let mut cors: Vec<Corruption> = vec![];
     for kind in &s.kinds {
         match kind.as_str() {
-            "none" => cors.push(Corruption { kind: kind.clone(), edits: vec![], desc: json!({}) }),
+            "none" => cors.push(Corruption { kind: kind.clone(), assign: None, edits: vec![], desc: json!({}) }),
             "out_notin" | "out_other_entry" | "inp_notin" | "pair_other_table" | "lu_slot_only" => {
                 for t in 0..nt {
                     let tb = &s.tables[t];
@@ -573,21 +633,18 @@ fn run_one<C: GenericConfig<D, F = F>>(s: &Scenario, selftest: bool, max_cor: us
                             "out_notin" => {
                                 let cands = [outv + 1, 65536 + r.gen_range(0..1u64 << 40), 0, 65535, P - 1];
                                 if let Some(v) = cands.iter().find(|v| !in_table(t, inp, **v)) {
-                                    let edits = class_of(built.outs[t][k]).into_iter().map(|x| (x, fc(*v))).collect();
-                                    cors.push(Corruption { kind: kind.clone(), edits, desc: json!({"table": t, "lookup": k, "entry": e, "pair": [inp, v]}) });
+                                    cors.push(Corruption { kind: kind.clone(), assign: forge(t, k, inp, *v), edits: vec![], desc: json!({"table": t, "lookup": k, "entry": e, "pair": [inp, v]}) });
                                 }
                             }
                             "out_other_entry" => {
                                 if let Some(p) = tb.pairs.iter().find(|p| !in_table(t, inp, p.1 as u64)) {
-                                    let edits = class_of(built.outs[t][k]).into_iter().map(|x| (x, fc(p.1 as u64))).collect();
-                                    cors.push(Corruption { kind: kind.clone(), edits, desc: json!({"table": t, "lookup": k, "entry": e, "pair": [inp, p.1]}) });
+                                    cors.push(Corruption { kind: kind.clone(), assign: forge(t, k, inp, p.1 as u64), edits: vec![], desc: json!({"table": t, "lookup": k, "entry": e, "pair": [inp, p.1]}) });
                                 }
                             }
                             "inp_notin" => {
                                 let cands = [inp + 1, 65536 + r.gen_range(0..1u64 << 40), 0, 65535];
                                 if let Some(v) = cands.iter().find(|v| !in_table(t, **v, outv)) {
-                                    let edits = class_of(built.ins[t][k]).into_iter().map(|x| (x, fc(*v))).collect();
-                                    cors.push(Corruption { kind: kind.clone(), edits, desc: json!({"table": t, "lookup": k, "entry": e, "pair": [v, outv]}) });
+                                    cors.push(Corruption { kind: kind.clone(), assign: forge(t, k, *v, outv), edits: vec![], desc: json!({"table": t, "lookup": k, "entry": e, "pair": [v, outv]}) });
                                 }
                             }
                             "pair_other_table" => {
@@ -604,9 +661,7 @@ fn run_one<C: GenericConfig<D, F = F>>(s: &Scenario, selftest: bool, max_cor: us
                                     }
                                 }
                                 if let Some((t2, p, shared)) = best {
-                                    let mut edits: Vec<(usize, F)> = class_of(built.ins[t][k]).into_iter().map(|x| (x, fc(p.0 as u64))).collect();
-                                    edits.extend(class_of(built.outs[t][k]).into_iter().map(|x| (x, fc(p.1 as u64))));
-                                    cors.push(Corruption { kind: kind.clone(), edits,
+                                    cors.push(Corruption { kind: kind.clone(), assign: forge(t, k, p.0 as u64, p.1 as u64), edits: vec![],
                                         desc: json!({"table": t, "lookup": k, "entry": e, "pair": [p.0, p.1], "from_table": t2, "input_shared": shared}) });
                                 }
                             }
@@ -615,7 +670,7 @@ fn run_one<C: GenericConfig<D, F = F>>(s: &Scenario, selftest: bool, max_cor: us
                                 let (row, slot) = lu_cell(t, k);
                                 let v = outv + 1 + r.gen_range(0..1000u64);
                                 if !in_table(t, inp, v) {
-                                    cors.push(Corruption { kind: kind.clone(), edits: vec![(row * nw + 2 * slot + 1, fc(v))],
+                                    cors.push(Corruption { kind: kind.clone(), assign: None, edits: vec![(row * nw + 2 * slot + 1, fc(v))],
                                         desc: json!({"table": t, "lookup": k, "row": row, "slot": slot, "pair": [inp, v]}) });
                                 }
                             }
@@ -635,12 +690,12 @@ fn run_one<C: GenericConfig<D, F = F>>(s: &Scenario, selftest: bool, max_cor: us
                         if kind == "table_cell" {
                             let col = 3 * slot + r.gen_range(0..2usize);
                             let x = row * nw + col;
-                            cors.push(Corruption { kind: kind.clone(), edits: vec![(x, a0.values[x] + F::ONE)],
+                            cors.push(Corruption { kind: kind.clone(), assign: None, edits: vec![(x, a0.values[x] + F::ONE)],
                                 desc: json!({"table": t, "entry": e, "row": row, "col": col}) });
                         } else {
                             let x = row * nw + 3 * slot + 2;
                             let nv = if a0.values[x] == F::ZERO || r.gen_bool(0.5) { a0.values[x] + F::ONE } else { a0.values[x] - F::ONE };
-                            cors.push(Corruption { kind: kind.clone(), edits: vec![(x, nv)], desc: json!({"table": t, "entry": e, "row": row, "col": 3 * slot + 2}) });
+                            cors.push(Corruption { kind: kind.clone(), assign: None, edits: vec![(x, nv)], desc: json!({"table": t, "entry": e, "row": row, "col": 3 * slot + 2}) });
                         }
                     }
                 }
@@ -655,7 +710,7 @@ fn run_one<C: GenericConfig<D, F = F>>(s: &Scenario, selftest: bool, max_cor: us
                             let slot = s_slots - 1 - r.gen_range(0..tpad);
                             let col = 3 * slot + r.gen_range(0..2usize);
                             let x = w.last_lut_gate * nw + col;
-                            cors.push(Corruption { kind: kind.clone(), edits: vec![(x, a0.values[x] + F::ONE)],
+                            cors.push(Corruption { kind: kind.clone(), assign: None, edits: vec![(x, a0.values[x] + F::ONE)],
                                 desc: json!({"table": t, "row": w.last_lut_gate, "col": col}) });
                         }
                     } else {
@@ -666,7 +721,7 @@ fn run_one<C: GenericConfig<D, F = F>>(s: &Scenario, selftest: bool, max_cor: us
                             let (i0, o0) = (tb.pairs[0].0 as u64, tb.pairs[0].1 as u64);
                             let cands = [o0 + 1, 65536 + r.gen_range(0..1u64 << 40)];
                             if let Some(v) = cands.iter().find(|v| !in_table(t, i0, **v)) {
-                                cors.push(Corruption { kind: kind.clone(), edits: vec![(row * nw + 2 * slot + 1, fc(*v))],
+                                cors.push(Corruption { kind: kind.clone(), assign: None, edits: vec![(row * nw + 2 * slot + 1, fc(*v))],
                                     desc: json!({"table": t, "row": row, "slot": slot, "pair": [i0, v]}) });
                             }
                         }
@@ -677,7 +732,7 @@ fn run_one<C: GenericConfig<D, F = F>>(s: &Scenario, selftest: bool, max_cor: us
                 for t in 0..nt {
                     let row = prover.lookup_rows[t].first_lut_gate + 1;
                     for col in [0usize, r.gen_range(0..nw), nw - 1] {
-                        cors.push(Corruption { kind: kind.clone(), edits: vec![(row * nw + col, fc(r.gen_range(1..P)))], desc: json!({"table": t, "row": row, "col": col}) });
+                        cors.push(Corruption { kind: kind.clone(), assign: None, edits: vec![(row * nw + col, fc(r.gen_range(1..P)))], desc: json!({"table": t, "row": row, "col": col}) });
                     }
                 }
             }
@@ -706,10 +761,11 @@ fn run_one<C: GenericConfig<D, F = F>>(s: &Scenario, selftest: bool, max_cor: us
     let nch = common.config.num_challenges;
     let _ = degree;
     for (ci, c) in cors.iter().enumerate() {
-        let mut a = a0.clone();
+        let mut a = c.assign.clone().unwrap_or_else(|| a0.clone());
         for (t, v) in &c.edits {
             a.values[*t] = *v;
         }
+        let diff: Vec<Value> = (0..a.values.len()).filter(|&x| a.values[x] != a0.values[x]).take(8).map(|x| json!([x, a.values[x].to_canonical_u64()])).collect();
         let verdict = oracle::check(&a, prover, common, &constants);
         let violated = !verdict.satisfied();
         // the property-level fact: some looked-up pair (of a real lookup, through its targets) is not in its table
@@ -766,7 +822,7 @@ fn run_one<C: GenericConfig<D, F = F>>(s: &Scenario, selftest: bool, max_cor: us
             out.push(json!({"id": id, "kind": c.kind, "strategy": st, "violated": violated, "bad_pairs": bad_pairs, "accepted": accepted,
                 "stage": stage, "detail": detail.chars().take(160).collect::<String>(), "desc": c.desc,
                 "oracle": {"gate": verdict.gate_violations.len(), "copy": verdict.copy_violations.len(), "lookup": verdict.lookup_violations.len()},
-                "edits": c.edits.iter().take(6).map(|(t, v)| json!([t, v.to_canonical_u64()])).collect::<Vec<_>>(),
+                "edits": diff,
                 "binding_bits": cfg.binding_bits()}));
         }
     }
